@@ -282,3 +282,24 @@ pub fn resolve_once(
 
     Ok(resolution_state)
 }
+
+
+/// Verification hooks (add-only, compiled only with
+/// `--cfg hlorenzi_customasm_verif`): re-exports of the
+/// otherwise private per-item resolver steps.
+#[cfg(hlorenzi_customasm_verif)]
+pub mod verif_hooks
+{
+    pub use super::instruction::{
+        check_and_constrain_argument,
+        resolve_encoding,
+        resolve_instruction,
+    };
+    pub use super::label::resolve_label;
+    pub use super::data_block::resolve_data_element;
+    pub use super::res::resolve_res;
+    pub use super::align::resolve_align;
+    pub use super::addr::resolve_addr;
+    pub use super::assert::resolve_assert;
+    pub use super::iter::verif_bits_until_alignment;
+}
